@@ -72,52 +72,31 @@ def check_writer(ctx):
     """T8-a: BPETokenizer::new fills the token table with 256 byte tokens then one token per merge in id order,
     and the special-token offset is the table length"""
     body = bpe_body(ctx, 'tokenization::BaseTokenizer::new')
-    pushes = [t for t in body.calls(r'Vec::push$')]
-    pushes = [t for t in pushes if 'Vec<std::vec::Vec<u8>>' in body.local_ty(t.args[0].place.local)]
-    from analysis import cfg
-    kinds = {}
-    for p in pushes:
-        loop = cfg.innermost_loop(body, p.bb)
-        if loop is None:
-            ctx.fail(body, 'table-push-outside-loop', 'token table push outside a loop', p.span)
-            continue
-        # the loop's iterator: the `next` call in the header chain
-        nexts = [t for t in body.calls(r'::next$') if t.bb in loop.blocks]
-        src = None
-        for n in nexts:
-            s = loop_source(body, n)
-            src = s
-        kinds.setdefault('byte' if src is not None and has(src, ('agg', 'adt', Pred(lambda n: n.endswith('Range::Range')), ANY)) else 'merge', []).append((p, loop, src))
-    okb = 'byte' in kinds and len(kinds['byte']) == 1
-    if okb:
-        p, loop, src = kinds['byte'][0]
-        rng = [s for s in walk(src) if isinstance(s, tuple) and s and s[0] == 'agg' and s[2].endswith('Range::Range')]
-        lo, hi = rng[0][3][0], rng[0][3][1]
-        okb = lo[0] == 'const' and lo[2] == 0 and hi[0] == 'const' and hi[2] == 256
-        ctx.require(okb, body, 'byte-range', 'token table starts with one token per byte value 0..256',
-                    'byte tokens are pushed for range %s' % show_in(body, rng[0]), p.span)
-    else:
-        ctx.fail(body, 'byte-range', 'the loop pushing the 256 single-byte tokens was not found')
-    okm = 'merge' in kinds and len(kinds['merge']) == 1
-    if okm:
-        p, loop, src = kinds['merge'][0]
-        _, names = chain_names(src)
-        srt = [s for s in walk(src) if isinstance(s, tuple) and s and s[0] == 'call' and s[1].endswith('sorted_by_key')]
-        good = False
-        if srt:
-            clo = closure_of(ctx, srt[0][2][1])
+    from analysis.seq import seq_of, ITEM
+    from rules.common import range_bounds
+    nb0 = list(body.calls(r'new_base_tokenizer$'))
+    if len(nb0) != 1:
+        raise AnchorMissing('call of new_base_tokenizer in BPETokenizer::new')
+    st0 = sym(body, nb0[0].args[3])
+    segs = seq_of(ctx.facts, body, st0[3][1]) if st0[0] == 'agg' and len(st0[3]) >= 2 else None
+    if segs is None:
+        raise AnchorMissing('construction of the token table passed as state.1')
+    ok = len(segs) == 2 and all(s.kind == 'each' and not s.conds for s in segs)
+    ctx.require(ok, body, 'table-order', 'the token table is the byte tokens followed by the merge tokens, nothing else',
+                'the token table is built as %s' % [repr(s)[:140] for s in segs])
+    okb = ok and range_bounds(segs[0].src) == (0, 256)
+    ctx.require(okb, body, 'byte-range', 'token table starts with one token per byte value 0..256',
+                'the first run of the token table is `%s`' % (repr(segs[0])[:160] if segs else 'missing'), segs[0].term.span if segs and segs[0].term else None)
+    good = False
+    if ok:
+        src = peel(segs[1].src)
+        if src[0] == 'call' and src[1].endswith('sorted_by_key') and match(core(src[2][0]), Pred(lambda u: 'HashMap<std::vec::Vec<u8>, u32>' in body.local_ty(u[2]) if u[0] == 'var' and len(u) > 2 else False)):
+            clo = closure_of(ctx, src[2][1])
             rv = ret_values(clo)
-            # key closure returns the merge id = component 1 of the (bytes, id) entry
-            good = len(rv) == 1 and match(core(rv[0][0]), ('field', ('arg', 2, ANY), 1))
-        ctx.require(good, body, 'merge-order', 'merge tokens are appended in increasing merge-id order (sorted_by_key(id))',
-                    'merge tokens are not appended in merge-id order: %s' % show_in(body, src), p.span)
-    else:
-        ctx.fail(body, 'merge-order', 'the loop appending one token per merge was not found')
-    # pushes happen in this order: byte loop before merge loop
-    if okb and okm:
-        pb, pm = kinds['byte'][0][0], kinds['merge'][0][0]
-        ctx.require(cfg.dominates(body, kinds['byte'][0][1].header, pm.bb) and pm.bb not in kinds['byte'][0][1].blocks,
-                    body, 'table-order', 'byte tokens are pushed before merge tokens', None, pm.span)
+            # key closure returns the merge id = component 1 of the (bytes, id) entry; the token is component 0
+            good = len(rv) == 1 and match(core(rv[0][0]), ('field', ('arg', 2, ANY), 1)) and core(segs[1].elem) == ('field', ITEM, 0)
+    ctx.require(good, body, 'merge-order', 'merge tokens (the key bytes) are appended in increasing merge-id order (sorted_by_key(id))',
+                'merge tokens are not appended in merge-id order: %s' % (repr(segs[1])[:200] if len(segs) > 1 else 'missing'))
     nb = list(body.calls(r'new_base_tokenizer$'))
     if len(nb) != 1:
         raise AnchorMissing('call of new_base_tokenizer in BPETokenizer::new')
@@ -170,10 +149,11 @@ def check_merge_bytes_sink(ctx):
 
 
 def check_token_to_id(ctx):
+    from analysis.alts import value_alts, ret_choice
     body = body_for(ctx, TOK + 'token_to_id', BPE)
-    rv = ret_values(body)
     n = 0
-    for v, bb in rv:
+    for a in value_alts(ctx.facts, body, ret_choice(ctx.facts, body), expanded=True):
+        v = peel(a.value)
         if not (v[0] == 'agg' and v[2].endswith('Option::Some')):
             continue
         x = core(v[3][0])
@@ -181,8 +161,7 @@ def check_token_to_id(ctx):
             n += 1
             ctx.require(is_add256(x, lambda u: mentions_state(u, 0)), body, 'token-to-id-offset',
                         'token_to_id: merge token -> 256 + merge id',
-                        'token_to_id returns %s for a merge token (expected 256 + merge id)' % show_in(body, v[3][0]),
-                        body.blocks[bb].term.span)
+                        'token_to_id returns %s for a merge token (expected 256 + merge id)' % show_in(body, v[3][0]))
     if n == 0:
         ctx.fail(body, 'token-to-id-offset', 'token_to_id never returns an id derived from the merge table')
 
